@@ -187,6 +187,7 @@ def _nan_grouped_op(group_idx, array, func, fillna, *args, **kwargs):
     if fillna in [dtypes.INF, dtypes.NINF]:
         fillna = dtypes._get_fill_value(kwargs.get("dtype", None) or array.dtype, fillna)
     nullmask = isnull(array)
+    original = array
     if nullmask.any():
         # (integer arrays have no nulls; substituting there could overflow a narrow dtype with a wide fill)
         array = np.where(nullmask, fillna, array)
@@ -200,7 +201,7 @@ def _nan_grouped_op(group_idx, array, func, fillna, *args, **kwargs):
         if allnangroups.any():
             # +-inf can also be the true extreme of a group: only groups without any valid value are all-NaN
             nvalid = nanlen(
-                group_idx, array, axis=kwargs.get("axis", -1), size=kwargs.get("size", None), fill_value=0
+                group_idx, original, axis=kwargs.get("axis", -1), size=kwargs.get("size", None), fill_value=0
             )
             allnangroups &= nvalid == 0
             result[allnangroups] = kwargs["fill_value"]
